@@ -54,13 +54,23 @@ Definition see1 (seen : seen_t) (o : eobs) : seen_t :=
   | _ => seen
   end.
 
+(* broker-chosen identifiers appearing in a step, over all connections: which connection gets
+   which depends on map order, the multiset does not *)
+Fixpoint zinsert (x : Z) (l : list Z) : list Z :=
+  match l with [] => [x] | y :: l' => if x <=? y then x :: l else y :: zinsert x l' end.
+Definition step_mids (obs : list eobs) : list Z :=
+  fold_right zinsert [] (flat_map (fun o => match o with
+                                            | Out _ (OPublish _ _ q _ _ m) => if 0 <? q then [m] else []
+                                            | Out _ (OPubRel m) => [m]
+                                            | _ => [] end) obs).
+
 Definition model_step (st : cluster * seen_t * bool) (s : estep) : cluster * seen_t * bool :=
   let '(cl, seen, ok) := st in
   match fst s with
   | EPanic => (cl, seen, false)
   | _ =>
     let r := step seen cl (fst s) in
-    (fst r, fold_left see1 (snd r) seen, ok && perm_eqb eobs_eqb (snd r) (snd s))
+    (fst r, fold_left see1 (snd r) seen, ok && perm_eqb eobs_eqb (snd r) (snd s) && zlist_eqb (step_mids (snd r)) (step_mids (snd s)))
   end.
 Definition model_ok (c : case) : bool :=
   let '(_, k, steps) := c in snd (fold_left model_step steps (cnew k, [], true)).
@@ -71,7 +81,7 @@ Fixpoint first_bad (steps : list estep) (cl : cluster) (seen : seen_t) (i : nat)
   | [] => None
   | s :: rest =>
     let r := step seen cl (fst s) in
-    if perm_eqb eobs_eqb (snd r) (snd s) then first_bad rest (fst r) (fold_left see1 (snd r) seen) (S i)
+    if perm_eqb eobs_eqb (snd r) (snd s) && zlist_eqb (step_mids (snd r)) (step_mids (snd s)) then first_bad rest (fst r) (fold_left see1 (snd r) seen) (S i)
     else Some (i, snd r)
   end.
 
